@@ -57,6 +57,7 @@ def work(tasks, idx):
         if fmt == "tpm":
             kw["tpm_name_alg"] = TPM_NAME_ALGS[variant % 4]
             vendor = kw["tpm_vendor"] = simtpm.TCG_VENDOR_IDS[variant % len(simtpm.TCG_VENDOR_IDS)]
+            kw["tpm_san_extra_dnsname_first"] = variant % 5 == 2     # an extra dNSName before the directoryName is still conformant
         if fmt in attest.CHAIN_FORMATS and fmt != "fido-u2f":
             kw["n_intermediates"] = variant % 3
         cred_id = bytes((variant + i) % 256 for i in range(idlen))
